@@ -43,6 +43,13 @@ REGISTRY = dict(
     technique="machine-checked proof in Coq (counter machines by induction, rational arithmetic) + regenerated-fragment interface lemmas + instrumented differential runs; runtime monitor for optimizer/target disjointness (partial)",
 )
 
+COV_FUNCS = ['stable_baselines3.common.utils:polyak_update',
+             'stable_baselines3.common.utils:zip_strict',
+             'stable_baselines3.dqn.dqn:DQN._on_step',
+             'stable_baselines3.dqn.dqn:DQN._setup_model',
+             'stable_baselines3.sac.sac:SAC.train',
+             'stable_baselines3.td3.td3:TD3.train']
+
 HEADER = """From Coq Require Import List ZArith QArith Bool.
 From SB3V Require Import Lib.QUtil Model.Polyak Model.Cadence Model.LearnLoop Model.LearnCadence.
 Import ListNotations.
@@ -573,6 +580,9 @@ def run_all(chk, pcases, runs):
 def main():
     chk = Check("C08", groups=["polyak", "learnloop"])
     chk.build_props()
+    from harness import linecov
+
+    _cov = linecov.maybe_start(COV_FUNCS)
     quick = chk.tier == "quick"
     n_p, n_r = (200, 60) if quick else (4000, 600)
     corpus = load_corpus()
@@ -646,6 +656,7 @@ def main():
         "the number of gradient steps of each train() call is taken from the recorded calls (the learn loop itself is C12's subject)",
         "optimizer / target disjointness is a runtime monitor on the executed runs, not a theorem",
     ]
+    linecov.finish(_cov, chk)
     return chk.finish()
 
 
